@@ -11,6 +11,8 @@ package httpd_test
 
 import (
 	"bytes"
+	"encoding/json"
+	"sort"
 	"fmt"
 	"net"
 	"net/http"
@@ -27,6 +29,8 @@ import (
 	"github.com/dgrijalva/jwt-go/v4"
 	"github.com/gogo/protobuf/proto"
 	"github.com/golang/snappy"
+	"github.com/influxdata/influxdb/coordinator"
+	"github.com/influxdata/influxdb/internal"
 	"github.com/influxdata/influxdb/models"
 	"github.com/influxdata/influxdb/pkg/verifx/authx"
 	"github.com/influxdata/influxdb/pkg/verifx/vtrace"
@@ -101,6 +105,12 @@ func vhBuildWorld(world string) func(d *meta.Data) error {
 	return func(d *meta.Data) error {
 		for _, db := range []string{"d1", "d2"} {
 			if err := d.CreateDatabase(db); err != nil {
+				return err
+			}
+			if err := d.CreateRetentionPolicy(db, &meta.RetentionPolicyInfo{Name: "autogen", ReplicaN: 1}, true); err != nil {
+				return err
+			}
+			if err := d.CreateContinuousQuery(db, "cq_"+db, "CREATE CONTINUOUS QUERY cq_"+db+" ON "+db+" BEGIN SELECT count(v) INTO m2 FROM m GROUP BY time(1h) END"); err != nil {
 				return err
 			}
 		}
@@ -395,8 +405,7 @@ func TestVerifAuthHTTP(t *testing.T) {
 						if ran > 0 && !allowed {
 							sig := authx.Sig(*g, ex > 0, "http")
 							mu.Lock()
-							if !seenSig[sig] {
-								seenSig[sig] = true
+							if authx.Report(seenSig, sig) {
 								vtrace.Mismatch(sig, fmt.Sprintf("%s: status %d, %d statement(s)/write(s) reached the executor although the property does not allow the request", what, w.Code, ran), rp)
 							}
 							mu.Unlock()
@@ -430,4 +439,180 @@ func TestVerifAuthHTTP(t *testing.T) {
 	}
 	vtrace.Done("TestVerifAuthHTTP", map[string]interface{}{"groups": len(groups), "requests": nReq, "executed": nExec, "status401": n401,
 		"status403": n403, "drift": nDrift, "unsendable_groups": nUnsendable, "workers": workers})
+}
+
+// ---------------------------------------------------------------------------------------------
+// statements that list across databases: SHOW DATABASES, SHOW CONTINUOUS QUERIES, SHOW MEASUREMENTS ON *.*
+// through the real handler, the real query.Executor and the real coordinator.StatementExecutor (real
+// meta client, recording TSDB store).  The result may only mention databases the user holds a grant on.
+
+type vhListRow struct {
+	Vis     []string `json:"vis"`
+	Cqs     []string `json:"cqs"`
+	Meas    []string `json:"meas"`
+	MayVis  []string `json:"mayvis"`
+	MayMeas []string `json:"maymeas"`
+}
+
+type vhListIn struct {
+	Listing  []vhListRow `json:"listing"`
+	OnlyUser *int        `json:"only_user"`
+}
+
+type vhResp struct {
+	Results []struct {
+		Series []struct {
+			Name   string          `json:"name"`
+			Values [][]interface{} `json:"values"`
+		} `json:"series"`
+		Err string `json:"error"`
+	} `json:"results"`
+}
+
+func vhSet(xs []string) string {
+	ys := append([]string(nil), xs...)
+	sort.Strings(ys)
+	return strings.Join(ys, ",")
+}
+
+func vhSubset(xs, of []string) bool {
+	m := map[string]bool{}
+	for _, x := range of {
+		m[x] = true
+	}
+	for _, x := range xs {
+		if !m[x] {
+			return false
+		}
+	}
+	return true
+}
+
+func TestVerifAuthListing(t *testing.T) {
+	var in vhListIn
+	if err := vtrace.LoadJSON(os.Getenv("VERIF_IN"), &in); err != nil || len(in.Listing) != 32 {
+		t.Skip("no VERIF_IN")
+	}
+	base, err := os.MkdirTemp(os.Getenv("VERIF_SCRATCH"), "c16list")
+	if err != nil {
+		t.Fatal(err)
+	}
+	defer os.RemoveAll(base)
+	s, err := vhNewSrv(vhBuildWorld("normal"))
+	if err != nil {
+		vhInfra(t, "%v", err)
+	}
+	defer s.close()
+	cfg := meta.NewConfig()
+	cfg.Dir = base
+	c := meta.NewClient(cfg)
+	c.SetMetaServers([]string{s.ln.Addr().String()})
+	if err := c.Open(); err != nil {
+		vhInfra(t, "%v", err)
+	}
+	defer c.Close()
+	deadline := time.After(vhWatchdog)
+	for {
+		ch := c.WaitForDataChanged()
+		if d := c.Data(); d.Index >= 2 {
+			break
+		}
+		select {
+		case <-ch:
+		case <-deadline:
+			vhInfra(t, "metadata did not arrive")
+		}
+	}
+	node := vhNewNode(c)
+	var mu sync.Mutex
+	var touched []string
+	store := &internal.TSDBStoreMock{}
+	store.MeasurementNamesFn = func(auth query.FineAuthorizer, database string, retentionPolicy string, cond influxql.Expr) ([][]byte, error) {
+		mu.Lock()
+		touched = append(touched, database)
+		mu.Unlock()
+		return [][]byte{[]byte("m_" + database)}, nil
+	}
+	node.h.QueryExecutor.StatementExecutor = &coordinator.StatementExecutor{MetaClient: c, TSDBStore: store}
+
+	users := authx.Users()
+	seen := map[string]bool{}
+	var nReq, nListed, nDrift int
+	for ui, u := range users {
+		if in.OnlyUser != nil && ui != *in.OnlyUser {
+			continue
+		}
+		row := in.Listing[ui]
+		for _, ddb := range []string{"", "d1", "d2"} {
+			for _, what := range []string{"databases", "cqs", "measurements"} {
+				qtxt := map[string]string{"databases": "SHOW DATABASES", "cqs": "SHOW CONTINUOUS QUERIES", "measurements": "SHOW MEASUREMENTS ON *.*"}[what]
+				p := url.Values{"q": {qtxt}}
+				if ddb != "" {
+					p.Set("db", ddb)
+				}
+				r := httptest.NewRequest("GET", "/query?"+p.Encode(), nil)
+				r.SetBasicAuth(u.Name(), u.Password())
+				mu.Lock()
+				touched = nil
+				mu.Unlock()
+				w := httptest.NewRecorder()
+				node.h.ServeHTTP(w, r)
+				nReq++
+				if w.Code == 403 {
+					continue // request-level authorization is the matrix's subject
+				}
+				var resp vhResp
+				if w.Code != 200 || json.Unmarshal(w.Body.Bytes(), &resp) != nil || len(resp.Results) != 1 || resp.Results[0].Err != "" {
+					vhInfra(t, "%s as %s: status %d body %.300s", qtxt, u.Name(), w.Code, w.Body.String())
+				}
+				var listed []string
+				exp, may := row.Vis, row.MayVis
+				switch what {
+				case "databases":
+					for _, sr := range resp.Results[0].Series {
+						for _, v := range sr.Values {
+							listed = append(listed, fmt.Sprint(v[0]))
+						}
+					}
+				case "cqs":
+					exp = row.Cqs
+					for _, sr := range resp.Results[0].Series {
+						listed = append(listed, sr.Name)
+					}
+				case "measurements":
+					exp, may = row.Meas, row.MayMeas
+					dbs := map[string]bool{}
+					mu.Lock()
+					for _, d := range touched {
+						dbs[d] = true
+					}
+					mu.Unlock()
+					for _, sr := range resp.Results[0].Series {
+						for _, v := range sr.Values {
+							if len(v) > 1 { // name, database, retention policy
+								dbs[fmt.Sprint(v[1])] = true
+							}
+						}
+					}
+					for d := range dbs {
+						listed = append(listed, d)
+					}
+				}
+				nListed += len(listed)
+				rp := map[string]interface{}{"listing": in.Listing, "only_user": ui}
+				if !vhSubset(listed, may) {
+					sig := "listing:" + what + ":leak"
+					if authx.Report(seen, sig) {
+						vtrace.Mismatch(sig, fmt.Sprintf("`%s` as %s (db=%q) mentions databases {%s}; the user holds grants for {%s} only", qtxt, u.Name(), ddb, vhSet(listed), vhSet(may)), rp)
+					}
+				} else if vhSet(listed) != vhSet(exp) {
+					nDrift++
+					if nDrift <= 3 {
+						vtrace.Out(map[string]interface{}{"k": "drift", "detail": fmt.Sprintf("`%s` as %s (db=%q) lists {%s}, model expects {%s}", qtxt, u.Name(), ddb, vhSet(listed), vhSet(exp)), "replay": rp})
+					}
+				}
+			}
+		}
+	}
+	vtrace.Done("TestVerifAuthListing", map[string]interface{}{"requests": nReq, "listed": nListed, "drift": nDrift})
 }
